@@ -192,4 +192,17 @@ Proof.
     rewrite (map_nth (map (fun p => p * sbf_factor twopi fs n))), map_length. apply transposeL_row_length. exact Hk.
   - split; [apply transposeL_length|]. intros k Hk. apply transposeL_row_length. exact Hk.
 Qed.
+Theorem periodogram_2d_full_thm tw twopi (X : list (list F)) c (w : list F) NFFT isreal dt sbf fs :
+  let n := resolve NFFT (length X) in
+  (1 <= n)%nat ->
+  length (speriodogram2d tw twopi X c w NFFT isreal dt sbf fs) = nbins isreal n /\
+  forall k, (k < nbins isreal n)%nat ->
+    length (nth k (speriodogram2d tw twopi X c w NFFT isreal dt sbf fs) []) = c /\
+    forall j, (j < c)%nat ->
+      nthF (nth k (speriodogram2d tw twopi X c w NFFT isreal dt sbf fs) []) j
+      = nthF (speriodogram tw twopi (colL X j) w NFFT isreal dt sbf fs) k.
+Proof.
+  intros n Hn. destruct (periodogram_2d_shape_thm tw twopi X c w NFFT isreal dt sbf fs) as [H1 H2].
+  split; [exact H1|]. intros k Hk. split; [apply H2; exact Hk|]. intros j Hj. apply periodogram_2d_thm; assumption.
+Qed.
 End PerT.
